@@ -59,6 +59,10 @@ class Section:
         self.points = sorted(points)
         self.pset = set(points)
         self.lines = []   # [(expr, [targets])]; expr None => no trigger
+        # graph lines written out verbatim and not modelled (used for
+        # triggers that never fire, e.g. a suicide trigger on an output no
+        # job produces)
+        self.raw_lines = []
 
     def __repr__(self):
         return f'Section({self.heading!r}, {self.points})'
@@ -244,6 +248,8 @@ class Program:
                     for a in atoms(expr):
                         if a.kind == 'rel' and a.off == 0:
                             here.add(a.task)
+            for raw in s.raw_lines:
+                L.append(f'            {raw}')
             for t in sorted(here):
                 xs = self.tasks[t].xtriggers
                 if xs:
